@@ -101,6 +101,15 @@ def searchIfaces : List String :=
    firstDiffI "WiredNetworkInterface.disable" genWiredDisable (fun c => (c.nic.disable, some (some true))),
    firstDiffI "WirelessNetworkInterface.disable" genWirelessDisable (fun c => (c.nic.disable, some (some true)))]
 
+/-! the translated interface methods as a TABLE over every context, for the real-object probe of harness/rigs/power.py
+(`iface_probe`): `table <method> <enabled><linked><kind> <node state | None> <hello 0/1> -> <interface afterwards> <answer | RAISES>` -/
+def tableLines : List String :=
+  [("WiredNetworkInterface.enable", genWiredEnable), ("IPWiredNetworkInterface.enable", genIpWiredEnable),
+   ("WirelessNetworkInterface.enable", genWirelessEnable), ("IPWirelessNetworkInterface.enable", genIpWirelessEnable),
+   ("WiredNetworkInterface.disable", genWiredDisable), ("WirelessNetworkInterface.disable", genWirelessDisable)].flatMap fun (nm, f) =>
+    allCtx.map fun c =>
+      s!"table {nm} {showNic c.nic} {if c.hasNode then showSt c.nodeSt else "None"} {if c.hasNode && c.hello then 1 else 0} -> {showOut (f c)}"
+
 def main : IO Unit := do
-  for l in searchAll ++ searchIfaces do
+  for l in searchAll ++ searchIfaces ++ tableLines do
     IO.println l
